@@ -123,6 +123,8 @@ def _coq_case(case, expected):
             tmo = int(t[i + 2], 16)
             if tmo == 0xFFFFFFFFFFFFFFFF:
                 tmo_term = "(Some 0)"     # a timeout of zero is configured
+            elif tmo == 0xFFFFFFFFFFFFFFFE:
+                tmo_term = "None"         # a timeout of Duration::MAX is configured: it bounds nothing
             else:
                 tmo_term = "(Some %d)" % tmo if tmo else "None"
             reqs.append("mk_rcfg %s %s %s" % (n(t[i + 1]), tmo_term, n(t[i + 3])))
